@@ -151,6 +151,27 @@ pub fn finish(a: AssemblerX64, want: Insn) {
     conclude(&code, 0, code.len(), want, 0, 0);
 }
 
+/// Rows with an `Address` operand run the method in OVERWRITE mode: the buffer is pre-filled with 17 nop bytes
+/// and the position reset to 0, so every `emit_*` of the method overwrites `code[position]` instead of pushing
+/// (same public API: `emit_u64`, `emit_u8`, `set_position`; `AssemblerBuffer::emit_*` writes the same value in
+/// both modes). Reason: with a symbolic number of address bytes every `Vec::push` at a symbolic length drags the
+/// reallocation path into the formula (425 s instead of 207 s for `movl_ar`). The instruction is then
+/// `code[0..position()]`. Register-only rows use the normal append mode.
+pub fn new_prefilled(avx: bool) -> AssemblerX64 {
+    let mut a = AssemblerX64::new(avx);
+    a.emit_u64(0x9090909090909090);
+    a.emit_u64(0x9090909090909090);
+    a.emit_u8(0x90);
+    a.set_position(0);
+    a
+}
+pub fn finish_pre(a: AssemblerX64, want: Insn) {
+    let n = a.position();
+    let code = a.finalize(1).code();
+    let len = if n <= code.len() { n } else { code.len() };
+    conclude(&code[..len], 0, len, want, 0, 0);
+}
+
 // ---- row bodies ---------------------------------------------------------------------------------
 
 pub fn r0(_s: &mut Src, mn: Mn, size: u16, f: impl FnOnce(&mut AssemblerX64)) {
@@ -210,25 +231,25 @@ pub fn shift_cl(s: &mut Src, mn: Mn, size: u8, f: impl FnOnce(&mut AssemblerX64,
 pub fn ar(s: &mut Src, mn: Mn, size: u8, lock: bool, f: impl FnOnce(&mut AssemblerX64, Address, Register)) {
     let (m, mq) = addr(s);
     let (r, rn) = gpr(s);
-    let mut a = AssemblerX64::new(false);
+    let mut a = new_prefilled(false);
     f(&mut a, m, r);
     let want = Insn::op2(mn, size as u16, mem_sized(mq, size), dec::gpr(rn, size));
-    finish(a, if lock { want.with_lock() } else { want });
+    finish_pre(a, if lock { want.with_lock() } else { want });
 }
 /// dsize = operand size / size of the destination register, msize = size of the memory access (0 for lea)
 pub fn ra(s: &mut Src, mn: Mn, dsize: u8, msize: u8, f: impl FnOnce(&mut AssemblerX64, Register, Address)) {
     let (d, dn) = gpr(s);
     let (m, mq) = addr(s);
-    let mut a = AssemblerX64::new(false);
+    let mut a = new_prefilled(false);
     f(&mut a, d, m);
-    finish(a, Insn::op2(mn, dsize as u16, dec::gpr(dn, dsize), mem_sized(mq, msize)));
+    finish_pre(a, Insn::op2(mn, dsize as u16, dec::gpr(dn, dsize), mem_sized(mq, msize)));
 }
 pub fn ai(s: &mut Src, mn: Mn, size: u8, f: impl FnOnce(&mut AssemblerX64, Address, Immediate)) {
     let (m, mq) = addr(s);
     let (i, v) = imm(s);
-    let mut a = AssemblerX64::new(false);
+    let mut a = new_prefilled(false);
     f(&mut a, m, i);
-    finish(a, Insn::op2(mn, size as u16, mem_sized(mq, size), imm_for(v, size)));
+    finish_pre(a, Insn::op2(mn, size as u16, mem_sized(mq, size), imm_for(v, size)));
 }
 
 // SSE (legacy encoding): AssemblerX64::new(false)
@@ -265,19 +286,19 @@ pub fn xxi(s: &mut Src, mn: Mn, f: impl FnOnce(&mut AssemblerX64, XmmRegister, X
 pub fn xa(s: &mut Src, avx: bool, mn: Mn, msize: u8, f: impl FnOnce(&mut AssemblerX64, XmmRegister, Address)) {
     let (d, dn) = xmm(s);
     let (m, mq) = addr(s);
-    let mut a = AssemblerX64::new(avx);
+    let mut a = new_prefilled(avx);
     f(&mut a, d, m);
     let want = Insn::op2(mn, 128, Operand::Xmm(dn), mem_sized(mq, msize));
-    finish(a, if avx { want.with_vex() } else { want });
+    finish_pre(a, if avx { want.with_vex() } else { want });
 }
 /// memory <- xmm
 pub fn ax(s: &mut Src, avx: bool, mn: Mn, msize: u8, f: impl FnOnce(&mut AssemblerX64, Address, XmmRegister)) {
     let (m, mq) = addr(s);
     let (r, rn) = xmm(s);
-    let mut a = AssemblerX64::new(avx);
+    let mut a = new_prefilled(avx);
     f(&mut a, m, r);
     let want = Insn::op2(mn, 128, mem_sized(mq, msize), Operand::Xmm(rn));
-    finish(a, if avx { want.with_vex() } else { want });
+    finish_pre(a, if avx { want.with_vex() } else { want });
 }
 
 // VEX encoding: AssemblerX64::new(true)
@@ -310,9 +331,9 @@ pub fn vxxa(s: &mut Src, mn: Mn, msize: u8, f: impl FnOnce(&mut AssemblerX64, Xm
     let (d, dn) = xmm(s);
     let (l, ln) = xmm(s);
     let (m, mq) = addr(s);
-    let mut a = AssemblerX64::new(true);
+    let mut a = new_prefilled(true);
     f(&mut a, d, l, m);
-    finish(a, Insn::op3(mn, 128, Operand::Xmm(dn), Operand::Xmm(ln), mem_sized(mq, msize)).with_vex());
+    finish_pre(a, Insn::op3(mn, 128, Operand::Xmm(dn), Operand::Xmm(ln), mem_sized(mq, msize)).with_vex());
 }
 pub fn vgx(s: &mut Src, mn: Mn, gsize: u8, f: impl FnOnce(&mut AssemblerX64, Register, XmmRegister)) {
     let (d, dn) = gpr(s);
@@ -353,39 +374,35 @@ fn retarget(o: Operand, t: i32) -> Operand {
         o => o,
     }
 }
-/// label still unbound when the instruction is emitted; bound after q (0..=4) filler bytes
+/// Label rows also run on the pre-filled buffer (see `new_prefilled`): "p filler bytes before" / "q filler bytes
+/// after" are the nop bytes already in the buffer, reached with `set_position` — no emission loop is needed.
+/// Forward: label still unbound when the instruction is emitted at 0; bound q (0..=4) bytes after its end.
 pub fn label_fwd(s: &mut Src, avx: bool, f: impl FnOnce(&mut AssemblerX64, Label, &mut Src) -> Insn) {
     let q = s.below(5) as usize;
-    let mut a = AssemblerX64::new(avx);
+    let mut a = new_prefilled(avx);
     let l = a.create_label();
     let want0 = f(&mut a, l, s);
     let n = a.position();
-    let mut k = 0;
-    while k < q {
-        a.emit_u8(0x90);
-        k += 1;
-    }
+    a.set_position(n + q);
     a.bind_label(l);
     let code = a.finalize(1).code();
     // instruction at 0 with length n, label at n + q: displacement q
-    crate::vp_check!(code.len() == n + q, "finalize keeps the emitted length");
-    conclude(&code, 0, n, with_target(want0, q as i32), 0, q);
+    let end = if n <= code.len() { n } else { code.len() };
+    conclude(&code[..end], 0, end, with_target(want0, q as i32), 0, 0);
 }
-/// label bound first, then p (0..=4) filler bytes, then the instruction
+/// Backward: label bound at 0, then p (0..=4) filler bytes, then the instruction.
 pub fn label_bwd(s: &mut Src, avx: bool, f: impl FnOnce(&mut AssemblerX64, Label, &mut Src) -> Insn) {
     let p = s.below(5) as usize;
-    let mut a = AssemblerX64::new(avx);
+    let mut a = new_prefilled(avx);
     let l = a.create_and_bind_label();
-    let mut k = 0;
-    while k < p {
-        a.nop();
-        k += 1;
-    }
+    a.set_position(p);
     let want0 = f(&mut a, l, s);
+    let n = a.position();
     let code = a.finalize(1).code();
-    // label at 0, instruction at p with length len - p: displacement -(len)
-    let n = if code.len() >= p { code.len() - p } else { 0 };
-    conclude(&code, p, n, with_target(want0, 0 - (code.len() as i32)), p, 0);
+    // label at 0, instruction at p, ending at n: displacement -n
+    let end = if n <= code.len() { n } else { code.len() };
+    let len = if end >= p { end - p } else { 0 };
+    conclude(&code[..end], p, len, with_target(want0, 0 - (end as i32)), p, 0);
 }
 
 // ==================================================================================================
@@ -476,45 +493,45 @@ crate::vp_harness!(retq, |s| { r0(s, Mn::Ret, 0, |a| a.retq()) });
 crate::vp_harness!(call_rel32, |s| { let d = s.i32(); let mut a = AssemblerX64::new(false); a.call_rel32(d); finish(a, Insn::op1(Mn::Call, 0, Operand::Rel(d))) });
 
 // ---- address destination, register source ----
-crate::vp_harness!(cmpb_ar, |s| { ar(s, Mn::Cmp, 8, false, |a, m, r| a.cmpb_ar(m, r)) });
-crate::vp_harness!(cmpl_ar, |s| { ar(s, Mn::Cmp, 32, false, |a, m, r| a.cmpl_ar(m, r)) });
-crate::vp_harness!(cmpq_ar, |s| { ar(s, Mn::Cmp, 64, false, |a, m, r| a.cmpq_ar(m, r)) });
-crate::vp_harness!(cmpxchgl_ar, |s| { ar(s, Mn::Cmpxchg, 32, false, |a, m, r| a.cmpxchgl_ar(m, r)) });
-crate::vp_harness!(cmpxchgq_ar, |s| { ar(s, Mn::Cmpxchg, 64, false, |a, m, r| a.cmpxchgq_ar(m, r)) });
-crate::vp_harness!(lock_cmpxchgl_ar, |s| { ar(s, Mn::Cmpxchg, 32, true, |a, m, r| a.lock_cmpxchgl_ar(m, r)) });
-crate::vp_harness!(lock_cmpxchgq_ar, |s| { ar(s, Mn::Cmpxchg, 64, true, |a, m, r| a.lock_cmpxchgq_ar(m, r)) });
-crate::vp_harness!(lock_xaddl_ar, |s| { ar(s, Mn::Xadd, 32, true, |a, m, r| a.lock_xaddl_ar(m, r)) });
-crate::vp_harness!(lock_xaddq_ar, |s| { ar(s, Mn::Xadd, 64, true, |a, m, r| a.lock_xaddq_ar(m, r)) });
-crate::vp_harness!(movb_ar, |s| { ar(s, Mn::Mov, 8, false, |a, m, r| a.movb_ar(m, r)) });
-crate::vp_harness!(movl_ar, |s| { ar(s, Mn::Mov, 32, false, |a, m, r| a.movl_ar(m, r)) });
-crate::vp_harness!(movq_ar, |s| { ar(s, Mn::Mov, 64, false, |a, m, r| a.movq_ar(m, r)) });
-crate::vp_harness!(testl_ar, |s| { ar(s, Mn::Test, 32, false, |a, m, r| a.testl_ar(m, r)) });
-crate::vp_harness!(testq_ar, |s| { ar(s, Mn::Test, 64, false, |a, m, r| a.testq_ar(m, r)) });
-crate::vp_harness!(xaddl_ar, |s| { ar(s, Mn::Xadd, 32, false, |a, m, r| a.xaddl_ar(m, r)) });
-crate::vp_harness!(xaddq_ar, |s| { ar(s, Mn::Xadd, 64, false, |a, m, r| a.xaddq_ar(m, r)) });
-crate::vp_harness!(xchgb_ar, |s| { ar(s, Mn::Xchg, 8, false, |a, m, r| a.xchgb_ar(m, r)) });
-crate::vp_harness!(xchgl_ar, |s| { ar(s, Mn::Xchg, 32, false, |a, m, r| a.xchgl_ar(m, r)) });
-crate::vp_harness!(xchgq_ar, |s| { ar(s, Mn::Xchg, 64, false, |a, m, r| a.xchgq_ar(m, r)) });
+crate::vp_harness!(cmpb_ar, unwind = 8, |s| { ar(s, Mn::Cmp, 8, false, |a, m, r| a.cmpb_ar(m, r)) });
+crate::vp_harness!(cmpl_ar, unwind = 8, |s| { ar(s, Mn::Cmp, 32, false, |a, m, r| a.cmpl_ar(m, r)) });
+crate::vp_harness!(cmpq_ar, unwind = 8, |s| { ar(s, Mn::Cmp, 64, false, |a, m, r| a.cmpq_ar(m, r)) });
+crate::vp_harness!(cmpxchgl_ar, unwind = 8, |s| { ar(s, Mn::Cmpxchg, 32, false, |a, m, r| a.cmpxchgl_ar(m, r)) });
+crate::vp_harness!(cmpxchgq_ar, unwind = 8, |s| { ar(s, Mn::Cmpxchg, 64, false, |a, m, r| a.cmpxchgq_ar(m, r)) });
+crate::vp_harness!(lock_cmpxchgl_ar, unwind = 8, |s| { ar(s, Mn::Cmpxchg, 32, true, |a, m, r| a.lock_cmpxchgl_ar(m, r)) });
+crate::vp_harness!(lock_cmpxchgq_ar, unwind = 8, |s| { ar(s, Mn::Cmpxchg, 64, true, |a, m, r| a.lock_cmpxchgq_ar(m, r)) });
+crate::vp_harness!(lock_xaddl_ar, unwind = 8, |s| { ar(s, Mn::Xadd, 32, true, |a, m, r| a.lock_xaddl_ar(m, r)) });
+crate::vp_harness!(lock_xaddq_ar, unwind = 8, |s| { ar(s, Mn::Xadd, 64, true, |a, m, r| a.lock_xaddq_ar(m, r)) });
+crate::vp_harness!(movb_ar, unwind = 8, |s| { ar(s, Mn::Mov, 8, false, |a, m, r| a.movb_ar(m, r)) });
+crate::vp_harness!(movl_ar, unwind = 8, |s| { ar(s, Mn::Mov, 32, false, |a, m, r| a.movl_ar(m, r)) });
+crate::vp_harness!(movq_ar, unwind = 8, |s| { ar(s, Mn::Mov, 64, false, |a, m, r| a.movq_ar(m, r)) });
+crate::vp_harness!(testl_ar, unwind = 8, |s| { ar(s, Mn::Test, 32, false, |a, m, r| a.testl_ar(m, r)) });
+crate::vp_harness!(testq_ar, unwind = 8, |s| { ar(s, Mn::Test, 64, false, |a, m, r| a.testq_ar(m, r)) });
+crate::vp_harness!(xaddl_ar, unwind = 8, |s| { ar(s, Mn::Xadd, 32, false, |a, m, r| a.xaddl_ar(m, r)) });
+crate::vp_harness!(xaddq_ar, unwind = 8, |s| { ar(s, Mn::Xadd, 64, false, |a, m, r| a.xaddq_ar(m, r)) });
+crate::vp_harness!(xchgb_ar, unwind = 8, |s| { ar(s, Mn::Xchg, 8, false, |a, m, r| a.xchgb_ar(m, r)) });
+crate::vp_harness!(xchgl_ar, unwind = 8, |s| { ar(s, Mn::Xchg, 32, false, |a, m, r| a.xchgl_ar(m, r)) });
+crate::vp_harness!(xchgq_ar, unwind = 8, |s| { ar(s, Mn::Xchg, 64, false, |a, m, r| a.xchgq_ar(m, r)) });
 
 // ---- register destination, address source ----
-crate::vp_harness!(lea, |s| { ra(s, Mn::Lea, 64, 0, |a, d, m| a.lea(d, m)) });
-crate::vp_harness!(movb_ra, |s| { ra(s, Mn::Mov, 8, 8, |a, d, m| a.movb_ra(d, m)) });
-crate::vp_harness!(movl_ra, |s| { ra(s, Mn::Mov, 32, 32, |a, d, m| a.movl_ra(d, m)) });
-crate::vp_harness!(movq_ra, |s| { ra(s, Mn::Mov, 64, 64, |a, d, m| a.movq_ra(d, m)) });
-crate::vp_harness!(movsxbl_ra, |s| { ra(s, Mn::Movsx, 32, 8, |a, d, m| a.movsxbl_ra(d, m)) });
-crate::vp_harness!(movsxbq_ra, |s| { ra(s, Mn::Movsx, 64, 8, |a, d, m| a.movsxbq_ra(d, m)) });
-crate::vp_harness!(movzxb_ra, |s| { ra(s, Mn::Movzx, 32, 8, |a, d, m| a.movzxb_ra(d, m)) });
+crate::vp_harness!(lea, unwind = 8, |s| { ra(s, Mn::Lea, 64, 0, |a, d, m| a.lea(d, m)) });
+crate::vp_harness!(movb_ra, unwind = 8, |s| { ra(s, Mn::Mov, 8, 8, |a, d, m| a.movb_ra(d, m)) });
+crate::vp_harness!(movl_ra, unwind = 8, |s| { ra(s, Mn::Mov, 32, 32, |a, d, m| a.movl_ra(d, m)) });
+crate::vp_harness!(movq_ra, unwind = 8, |s| { ra(s, Mn::Mov, 64, 64, |a, d, m| a.movq_ra(d, m)) });
+crate::vp_harness!(movsxbl_ra, unwind = 8, |s| { ra(s, Mn::Movsx, 32, 8, |a, d, m| a.movsxbl_ra(d, m)) });
+crate::vp_harness!(movsxbq_ra, unwind = 8, |s| { ra(s, Mn::Movsx, 64, 8, |a, d, m| a.movsxbq_ra(d, m)) });
+crate::vp_harness!(movzxb_ra, unwind = 8, |s| { ra(s, Mn::Movzx, 32, 8, |a, d, m| a.movzxb_ra(d, m)) });
 
 // ---- address destination, immediate source ----
-crate::vp_harness!(cmpb_ai, |s| { ai(s, Mn::Cmp, 8, |a, m, i| a.cmpb_ai(m, i)) });
-crate::vp_harness!(cmpl_ai, |s| { ai(s, Mn::Cmp, 32, |a, m, i| a.cmpl_ai(m, i)) });
-crate::vp_harness!(cmpq_ai, |s| { ai(s, Mn::Cmp, 64, |a, m, i| a.cmpq_ai(m, i)) });
-crate::vp_harness!(movb_ai, |s| { ai(s, Mn::Mov, 8, |a, m, i| a.movb_ai(m, i)) });
-crate::vp_harness!(movl_ai, |s| { ai(s, Mn::Mov, 32, |a, m, i| a.movl_ai(m, i)) });
-crate::vp_harness!(movq_ai, |s| { ai(s, Mn::Mov, 64, |a, m, i| a.movq_ai(m, i)) });
-crate::vp_harness!(testb_ai, |s| { ai(s, Mn::Test, 8, |a, m, i| a.testb_ai(m, i)) });
-crate::vp_harness!(testl_ai, |s| { ai(s, Mn::Test, 32, |a, m, i| a.testl_ai(m, i)) });
-crate::vp_harness!(testq_ai, |s| { ai(s, Mn::Test, 64, |a, m, i| a.testq_ai(m, i)) });
+crate::vp_harness!(cmpb_ai, unwind = 8, |s| { ai(s, Mn::Cmp, 8, |a, m, i| a.cmpb_ai(m, i)) });
+crate::vp_harness!(cmpl_ai, unwind = 8, |s| { ai(s, Mn::Cmp, 32, |a, m, i| a.cmpl_ai(m, i)) });
+crate::vp_harness!(cmpq_ai, unwind = 8, |s| { ai(s, Mn::Cmp, 64, |a, m, i| a.cmpq_ai(m, i)) });
+crate::vp_harness!(movb_ai, unwind = 8, |s| { ai(s, Mn::Mov, 8, |a, m, i| a.movb_ai(m, i)) });
+crate::vp_harness!(movl_ai, unwind = 8, |s| { ai(s, Mn::Mov, 32, |a, m, i| a.movl_ai(m, i)) });
+crate::vp_harness!(movq_ai, unwind = 8, |s| { ai(s, Mn::Mov, 64, |a, m, i| a.movq_ai(m, i)) });
+crate::vp_harness!(testb_ai, unwind = 8, |s| { ai(s, Mn::Test, 8, |a, m, i| a.testb_ai(m, i)) });
+crate::vp_harness!(testl_ai, unwind = 8, |s| { ai(s, Mn::Test, 32, |a, m, i| a.testl_ai(m, i)) });
+crate::vp_harness!(testq_ai, unwind = 8, |s| { ai(s, Mn::Test, 64, |a, m, i| a.testq_ai(m, i)) });
 
 // ---- SSE register-register ----
 crate::vp_harness!(addss_rr, |s| { xx(s, Mn::Addss, |a, d, r| a.addss_rr(d, r)) });
@@ -551,15 +568,15 @@ crate::vp_harness!(roundsd_ri, |s| { xxi(s, Mn::Roundsd, |a, d, r, m| a.roundsd_
 crate::vp_harness!(roundss_ri, |s| { xxi(s, Mn::Roundss, |a, d, r, m| a.roundss_ri(d, r, m)) });
 
 // ---- SSE with address ----
-crate::vp_harness!(andps_ra, |s| { xa(s, false, Mn::Andps, 128, |a, d, m| a.andps_ra(d, m)) });
-crate::vp_harness!(movsd_ra, |s| { xa(s, false, Mn::Movsd, 64, |a, d, m| a.movsd_ra(d, m)) });
-crate::vp_harness!(movss_ra, |s| { xa(s, false, Mn::Movss, 32, |a, d, m| a.movss_ra(d, m)) });
-crate::vp_harness!(xorpd_ra, |s| { xa(s, false, Mn::Xorpd, 128, |a, d, m| a.xorpd_ra(d, m)) });
-crate::vp_harness!(xorps_ra, |s| { xa(s, false, Mn::Xorps, 128, |a, d, m| a.xorps_ra(d, m)) });
-crate::vp_harness!(movaps_ar, |s| { ax(s, false, Mn::Movaps, 128, |a, m, r| a.movaps_ar(m, r)) });
-crate::vp_harness!(movsd_ar, |s| { ax(s, false, Mn::Movsd, 64, |a, m, r| a.movsd_ar(m, r)) });
-crate::vp_harness!(movss_ar, |s| { ax(s, false, Mn::Movss, 32, |a, m, r| a.movss_ar(m, r)) });
-crate::vp_harness!(movups_ar, |s| { ax(s, false, Mn::Movups, 128, |a, m, r| a.movups_ar(m, r)) });
+crate::vp_harness!(andps_ra, unwind = 8, |s| { xa(s, false, Mn::Andps, 128, |a, d, m| a.andps_ra(d, m)) });
+crate::vp_harness!(movsd_ra, unwind = 8, |s| { xa(s, false, Mn::Movsd, 64, |a, d, m| a.movsd_ra(d, m)) });
+crate::vp_harness!(movss_ra, unwind = 8, |s| { xa(s, false, Mn::Movss, 32, |a, d, m| a.movss_ra(d, m)) });
+crate::vp_harness!(xorpd_ra, unwind = 8, |s| { xa(s, false, Mn::Xorpd, 128, |a, d, m| a.xorpd_ra(d, m)) });
+crate::vp_harness!(xorps_ra, unwind = 8, |s| { xa(s, false, Mn::Xorps, 128, |a, d, m| a.xorps_ra(d, m)) });
+crate::vp_harness!(movaps_ar, unwind = 8, |s| { ax(s, false, Mn::Movaps, 128, |a, m, r| a.movaps_ar(m, r)) });
+crate::vp_harness!(movsd_ar, unwind = 8, |s| { ax(s, false, Mn::Movsd, 64, |a, m, r| a.movsd_ar(m, r)) });
+crate::vp_harness!(movss_ar, unwind = 8, |s| { ax(s, false, Mn::Movss, 32, |a, m, r| a.movss_ar(m, r)) });
+crate::vp_harness!(movups_ar, unwind = 8, |s| { ax(s, false, Mn::Movups, 128, |a, m, r| a.movups_ar(m, r)) });
 
 // ---- VEX three-operand ----
 crate::vp_harness!(vaddsd_rr, |s| { vxxx(s, Mn::Addsd, |a, d, l, r| a.vaddsd_rr(d, l, r)) });
@@ -583,10 +600,10 @@ crate::vp_harness!(vcvtsi2ssd_rr, |s| { vxxg(s, Mn::Cvtsi2ss, 32, |a, d, l, r| a
 crate::vp_harness!(vcvtsi2ssq_rr, |s| { vxxg(s, Mn::Cvtsi2ss, 64, |a, d, l, r| a.vcvtsi2ssq_rr(d, l, r)) });
 crate::vp_harness!(vroundsd_ri, |s| { vxxxi(s, Mn::Roundsd, |a, d, l, r, m| a.vroundsd_ri(d, l, r, m)) });
 crate::vp_harness!(vroundss_ri, |s| { vxxxi(s, Mn::Roundss, |a, d, l, r, m| a.vroundss_ri(d, l, r, m)) });
-crate::vp_harness!(vandpd_ra, |s| { vxxa(s, Mn::Andpd, 128, |a, d, l, m| a.vandpd_ra(d, l, m)) });
-crate::vp_harness!(vandps_ra, |s| { vxxa(s, Mn::Andps, 128, |a, d, l, m| a.vandps_ra(d, l, m)) });
-crate::vp_harness!(vxorpd_ra, |s| { vxxa(s, Mn::Xorpd, 128, |a, d, l, m| a.vxorpd_ra(d, l, m)) });
-crate::vp_harness!(vxorps_ra, |s| { vxxa(s, Mn::Xorps, 128, |a, d, l, m| a.vxorps_ra(d, l, m)) });
+crate::vp_harness!(vandpd_ra, unwind = 8, |s| { vxxa(s, Mn::Andpd, 128, |a, d, l, m| a.vandpd_ra(d, l, m)) });
+crate::vp_harness!(vandps_ra, unwind = 8, |s| { vxxa(s, Mn::Andps, 128, |a, d, l, m| a.vandps_ra(d, l, m)) });
+crate::vp_harness!(vxorpd_ra, unwind = 8, |s| { vxxa(s, Mn::Xorpd, 128, |a, d, l, m| a.vxorpd_ra(d, l, m)) });
+crate::vp_harness!(vxorps_ra, unwind = 8, |s| { vxxa(s, Mn::Xorps, 128, |a, d, l, m| a.vxorps_ra(d, l, m)) });
 
 // ---- VEX two-operand ----
 crate::vp_harness!(vcvttsd2sid_rr, |s| { vgx(s, Mn::Cvttsd2si, 32, |a, d, r| a.vcvttsd2sid_rr(d, r)) });
@@ -601,10 +618,10 @@ crate::vp_harness!(vmovapd_rr, |s| { vxx(s, Mn::Movapd, |a, d, r| a.vmovapd_rr(d
 crate::vp_harness!(vmovaps_rr, |s| { vxx(s, Mn::Movaps, |a, d, r| a.vmovaps_rr(d, r)) });
 crate::vp_harness!(vucomisd_rr, |s| { vxx(s, Mn::Ucomisd, |a, d, r| a.vucomisd_rr(d, r)) });
 crate::vp_harness!(vucomiss_rr, |s| { vxx(s, Mn::Ucomiss, |a, d, r| a.vucomiss_rr(d, r)) });
-crate::vp_harness!(vmovsd_ra, |s| { xa(s, true, Mn::Movsd, 64, |a, d, m| a.vmovsd_ra(d, m)) });
-crate::vp_harness!(vmovss_ra, |s| { xa(s, true, Mn::Movss, 32, |a, d, m| a.vmovss_ra(d, m)) });
-crate::vp_harness!(vmovsd_ar, |s| { ax(s, true, Mn::Movsd, 64, |a, m, r| a.vmovsd_ar(m, r)) });
-crate::vp_harness!(vmovss_ar, |s| { ax(s, true, Mn::Movss, 32, |a, m, r| a.vmovss_ar(m, r)) });
+crate::vp_harness!(vmovsd_ra, unwind = 8, |s| { xa(s, true, Mn::Movsd, 64, |a, d, m| a.vmovsd_ra(d, m)) });
+crate::vp_harness!(vmovss_ra, unwind = 8, |s| { xa(s, true, Mn::Movss, 32, |a, d, m| a.vmovss_ra(d, m)) });
+crate::vp_harness!(vmovsd_ar, unwind = 8, |s| { ax(s, true, Mn::Movsd, 64, |a, m, r| a.vmovsd_ar(m, r)) });
+crate::vp_harness!(vmovss_ar, unwind = 8, |s| { ax(s, true, Mn::Movss, 32, |a, m, r| a.vmovss_ar(m, r)) });
 
 // ---- label forms: forward (label bound q filler bytes after the instruction) and backward (bound p bytes before) ----
 crate::vp_harness!(jmp__fwd, unwind = 6, |s| { label_fwd(s, false, |a, l, _s| { a.jmp(l); Insn::op1(Mn::Jmp, 0, Operand::Rel(0)) }) });
